@@ -210,6 +210,10 @@ def mk_binop(op, a, b):
     if f is not None:
         return f
     if op in ("Eq", "Ne"):
+        # a - b == 0 is a == b (also in wrapping arithmetic)
+        for x, c in ((a, b), (b, a)):
+            if c == const(0) and isinstance(x, tuple) and x[0] == "binop" and x[1] == "Sub":
+                return mk_binop(op, x[2], x[3])
         # x == 1 / x != 0 is x, x == 0 / x != 1 is !x for a two-valued x
         for x, c in ((a, b), (b, a)):
             if is_const(c) and c[1] in (0, 1) and isinstance(c[1], int) and x in BOOL_TERMS:
@@ -250,6 +254,11 @@ def mk_binop(op, a, b):
 
 
 # ------------------------------------------------------------------ CFG helpers
+
+def chain_sig_of(frames):
+    """((caller fn, return block), ...) for a stack of frames (see PX.chain_sig)"""
+    return tuple((frames[i - 1].info.name, frames[i].ret_target) for i in range(1, len(frames)))
+
 
 class BodyInfo:
     """per-body CFG facts: successors (non-cleanup), natural loops and their write sets"""
@@ -498,7 +507,7 @@ class Cons:
 # ------------------------------------------------------------------ interpreter state
 
 class Frame:
-    __slots__ = ("info", "fid", "bb", "ret_dest", "ret_target", "open_loops", "visits", "wrap", "depth")
+    __slots__ = ("info", "fid", "bb", "ret_dest", "ret_target", "open_loops", "visits", "wrap", "depth", "end_as")
 
     def __init__(self, info, fid, depth):
         self.info = info
@@ -509,6 +518,7 @@ class Frame:
         self.open_loops = frozenset()
         self.visits = {}
         self.wrap = None
+        self.end_as = None
         self.depth = depth
 
     def copy(self):
@@ -519,6 +529,7 @@ class Frame:
         f.open_loops = self.open_loops
         f.visits = dict(self.visits)
         f.wrap = self.wrap
+        f.end_as = self.end_as
         return f
 
 
@@ -651,6 +662,10 @@ class PX:
                 if len(st.frames) == 1:
                     self._end("return", st, value=val)
                     return
+                if fr.end_as is not None:
+                    # the body of a summarised iteration (e.g. the closure of Iterator::fold): one turn ends here
+                    self._end("backedge", st, value=val, where=fr.end_as)
+                    return
                 st.frames.pop()
                 caller = st.frames[-1]
                 self.emit(st, {"k": "inline_ret", "fn": info.name, "value": val})
@@ -711,6 +726,10 @@ class PX:
                 v = self._read(st, root, path)
                 if isinstance(v, tuple) and v and v[0] == "ref":
                     root, path = v[1], v[2]
+                elif is_agg(v) and v[1] in ("closure", "coroutine"):
+                    # a closure body expanded by a combinator model receives its environment by value where the MIR
+                    # signature says `&mut {closure}`: dereferencing it is the identity
+                    pass
                 else:
                     root, path = ("H", v), ()
             elif k == "field":
@@ -976,6 +995,14 @@ class PX:
                         return a
                     if dst["bits"] >= src["bits"] and not src["signed"] and not dst["signed"]:
                         return a
+                if src.get("k") == "int" and dst.get("k") == "int" and src["signed"] and not dst["signed"] and dst["bits"] >= src["bits"] \
+                        and st.cons.known.get(("binop", "Lt", a, const(0))) == 0:
+                    # a signed value the path knows to be non-negative keeps its value when reinterpreted as unsigned
+                    if isinstance(a, tuple) and a[0] == "call" and a[1] in ("libc::pread", "libc::read") and len(a[2]) >= 3:
+                        # POSIX: a non-negative result of read/pread is at most the requested count (path-local fact)
+                        TY.setdefault(a, (64, False))
+                        st.cons.rel.append(("Le", a, a[2][2]))
+                    return a
                 if is_const(a) and dst.get("k") == "int" and isinstance(a[1], int):
                     bits = dst["bits"]
                     v = a[1] & ((1 << bits) - 1)
@@ -1190,16 +1217,28 @@ class PX:
             seen.add(key)
             # do not havoc pure temporaries that are dead at the header: harmless either way
             old = self._read(st, root, path)
-            nv = ("loopvar", info.name, header, self._place_key(root, path), n)
+            sig = self.chain_sig(st)
+            nv = ("loopvar", info.name, header, self._place_key(root, path), n) + ((sig,) if sig else ())
             if place["ty"].get("k") == "int":
                 TY[nv] = (place["ty"]["bits"], place["ty"]["signed"])
             if place["ty"].get("k") == "bool":
                 self.mark_bool(nv)
-            st.extra.setdefault("loop_entry_values", {})[(info.name, header, self._place_key(root, path))] = old
+            lev = st.extra.setdefault("loop_entry_values", {})
+            lev[(info.name, header, self._place_key(root, path))] = old
+            if sig:
+                lev[(info.name, header, self._place_key(root, path), sig)] = old
             self._write(st, root, path, nv)
-        self.emit(st, {"k": "loop_enter", "fn": info.name, "bb": header})
+        self.emit(st, {"k": "loop_enter", "fn": info.name, "bb": header, "sig": self.chain_sig(st)})
         if self.loop_assume:
             self.loop_assume(self, st, fr, header)
+
+    def chain_sig(self, st):
+        """the static call chain of the current frame: ((caller fn, return block), ...) - empty in the root frame.  It tells
+        apart the instances of a loop in a helper that is expanded at several call sites (frame ids are path-dependent)."""
+        out = []
+        for i in range(1, len(st.frames)):
+            out.append((st.frames[i - 1].info.name, st.frames[i].ret_target))
+        return tuple(out)
 
     def _place_key(self, root, path):
         if root[0] == "L":
@@ -1214,9 +1253,23 @@ class PX:
         uid = (info.name, bb, fr.visits.get(bb, 1), fr.fid)
         if "indirect" in c:
             f = self.eval_op(st, fr, c["indirect"])
-            name = "<indirect>"
-            names = {name}
-            c = {"path": name, "full": name, "indirect_term": f}
+            for _ in range(3):
+                if isinstance(f, tuple) and f and f[0] == "ref":
+                    f = self._read(st, f[1], f[2])
+                elif isinstance(f, tuple) and f and f[0] == "refconst":
+                    f = f[1]
+                else:
+                    break
+            if isinstance(f, tuple) and f and f[0] == "fn":
+                # a call through a fn pointer whose value is a known fn item: the same as calling that item
+                name = f[1]
+                c = {"path": name, "res_path": name, "full": f[2] or name, "res_full": f[2] or name,
+                     "res_local": name in self.facts.bodies, "via_fn_pointer": True}
+                names = {name}
+            else:
+                name = "<indirect>"
+                names = {name}
+                c = {"path": name, "full": name, "indirect_term": f}
         else:
             name = c.get("res_path") or c["path"]
             names = F.callee_names(c)
@@ -1281,10 +1334,11 @@ class PX:
                 ty = o.get("place", {}).get("ty", {})
                 self._write(st, a[1], a[2], ("havoc", res, i))
 
-    def _push_frame(self, st, target, args, dest, ret_target, wrap=None):
+    def _push_frame(self, st, target, args, dest, ret_target, wrap=None, end_as=None):
         info = self.info(target)
         caller = st.frames[-1]
         nf = Frame(info, st.nfid, caller.depth + 1)
+        nf.end_as = end_as
         st.nfid += 1
         nf.ret_dest = dest
         nf.ret_target = ret_target
@@ -1333,7 +1387,7 @@ class PX:
             if "inline" in o:
                 e2["inlined"] = True
                 self.emit(s2, e2)
-                self._push_frame(s2, o["inline"], o["args"], t["dest"], t["target"], o.get("wrap"))
+                self._push_frame(s2, o["inline"], o["args"], t["dest"], t["target"], o.get("wrap"), o.get("end_as"))
             else:
                 e2["result"] = o["value"]
                 self.emit(s2, e2)
@@ -1389,7 +1443,7 @@ def fmt_term(t, depth=0):
     if k == "deref":
         return "*%s" % fmt_term(t[1], d)
     if k == "loopvar":
-        return "loopvar@%s.bb%d%s" % (t[1].split("::")[-1], t[2], t[3][1:])
+        return "loopvar@%s.bb%s%s" % (t[1].split("::")[-1], t[2], t[3][1:])
     if k == "refconst":
         return "&%s" % fmt_term(t[1], d)
     if k == "pack":
